@@ -177,6 +177,32 @@ fn floats(ctx: &mut Ctx, n: usize) {
     ctx.rng = rng;
 }
 
+/// Correct rounding, tested where it is hardest: the exact midpoint between two adjacent doubles
+/// (ties to even) and the decimal strings one digit above and below it.
+fn float_midpoints(ctx: &mut Ctx, n: usize) {
+    let mut rng = ctx.rng.clone();
+    for _ in 0..n {
+        // x = m * 2^e with a full 53-bit m and e in [-26, -1] (everything fits u128); midpoint = (2m+1) * 2^(e-1) = (2m+1) * 5^(1-e) / 10^(1-e)
+        let m: u64 = (1u64 << 52) | (rng.next() & ((1u64 << 52) - 1));
+        let e: i32 = -1 - rng.below(26) as i32;
+        let x = (m as f64) * 2f64.powi(e);
+        let next = ((m + 1) as f64) * 2f64.powi(e);
+        let k = (1 - e) as u32; // number of fractional digits of the midpoint
+        let mid: u128 = (2 * m as u128 + 1) * 5u128.pow(k);
+        let digits = mid.to_string();
+        let tie_winner = if m % 2 == 0 { x } else { next };
+        let neg = rng.chance(1, 2);
+        let sgn = |f: f64| if neg { -f } else { f };
+        let sign = if neg { "-" } else { "" };
+        let body = place_point(&digits, k);
+        check_literal(ctx, &format!("f{sign}{body}"), &Want::Val(Value::Float(sgn(tie_winner))), "float-exact-midpoint-ties-to-even");
+        check_literal(ctx, &format!("f{sign}{body}000000000000000000001"), &Want::Val(Value::Float(sgn(next))), "float-just-above-midpoint");
+        let below = (mid * 10 - 1).to_string();
+        check_literal(ctx, &format!("f{sign}{}", place_point(&below, k + 1)), &Want::Val(Value::Float(sgn(x))), "float-just-below-midpoint");
+    }
+    ctx.rng = rng;
+}
+
 fn place_point(digits: &str, scale: u32) -> String {
     let scale = scale as usize;
     if scale == 0 {
@@ -521,6 +547,7 @@ fn layout(ctx: &mut Ctx, n: usize) {
 fn run(ctx: &mut Ctx) {
     ints(ctx, ctx.tier.of(1_500, 40_000));
     floats(ctx, ctx.tier.of(1_500, 40_000));
+    float_midpoints(ctx, ctx.tier.of(300, 6_000));
     decimals(ctx, ctx.tier.of(6_000, 150_000));
     strings(ctx, ctx.tier.of(3_000, 60_000));
     mixed_strings(ctx, ctx.tier.of(2_000, 40_000));
@@ -536,7 +563,7 @@ fn finish(m: &Merged, tier: Tier) -> Finish {
         ..Default::default()
     };
     let need = [
-        ("int-decimal", 500), ("int-hex", 200), ("int-octal", 200), ("int-binary", 200), ("int-out-of-range", 5), ("float-shortest", 500), ("float-scientific", 500), ("float-exact-expansion", 100),
+        ("int-decimal", 500), ("int-hex", 200), ("int-octal", 200), ("int-binary", 200), ("int-out-of-range", 5), ("float-shortest", 500), ("float-scientific", 500), ("float-exact-expansion", 100), ("float-exact-midpoint-ties-to-even", 1_000), ("float-just-above-midpoint", 1_000), ("float-just-below-midpoint", 1_000),
         ("decimal-scale-preserved", tier.of(5_000, 50_000)), ("decimal-beyond-scale-28", 100), ("string-raw-bmp", 3_900), ("string-unicode-escape", 1_000), ("string-escape", 6), ("string-mixed-raw-and-escapes", 10_000), ("keyword-identifier-collisions", 3_000), ("layout", tier.of(50_000, 500_000)),
     ];
     for (fam, min) in need {
@@ -548,7 +575,7 @@ fn finish(m: &Merged, tier: Tier) -> Finish {
     f.extras.insert("layout".into(), json!(m.prefix_map("layout:")));
     f.extras.insert("words".into(), json!(m.prefix_map("words:")));
     f.assumptions = vec![
-        "float texts are produced by Rust's own Display/LowerExp (shortest round-trip and exact expansions are std's); 'nearest double' for other digit strings is checked only on directed ties-to-even cases".into(),
+        "float texts are produced by Rust's own Display/LowerExp (shortest round-trip and exact expansions are std's); 'nearest double' for other digit strings is checked on exact midpoints between adjacent doubles (ties to even) and the strings one digit above / below them, computed in u128".into(),
         "Decimal values are built with from_i128_with_scale; rust_decimal's equality and scale() are trusted".into(),
     ];
     f
